@@ -198,7 +198,7 @@ pub fn object_heavy(base: &Config, salt: u64) -> Config {
     let mut rng = Rng::new(salt);
     let steps = 10 + rng.below(50) as usize;
     // recipes: operand set-ups followed by the typed opcode that consumes them
-    const RECIPES: [&[&str]; 62] = [
+    const RECIPES: [&[&str]; 68] = [
         // containers that hold a float (NaN with saturated entropy) and are then stored into themselves
         &["MARK", "BINFLOAT", "LIST", "DUP", "APPEND"],
         &["MARK", "FLOAT", "LIST", "DUP", "TUPLE1", "APPEND"],
@@ -271,6 +271,14 @@ pub fn object_heavy(base: &Config, salt: u64) -> Config {
         &["SHORT_BINBYTES", "MEMOIZE", "BINGET", "READONLY_BUFFER"],
         &["SHORT_BINBYTES", "DUP", "STACK_GLOBAL"],
         &["BINBYTES", "SHORT_BINBYTES", "STACK_GLOBAL", "EMPTY_TUPLE", "REDUCE"],
+        // containers with several members of different kinds under a typed opcode (anything that
+        // iterates the simulated dict / set must not let its order decide)
+        &["GLOBAL", "EMPTY_TUPLE", "EMPTY_DICT", "SHORT_BINUNICODE", "NONE", "SETITEM", "NONE", "NONE", "SETITEM", "BININT1", "NONE", "SETITEM", "NEWOBJ_EX"],
+        &["GLOBAL", "EMPTY_TUPLE", "EMPTY_DICT", "MARK", "BINUNICODE", "NONE", "NONE", "NONE", "BININT1", "NONE", "BINFLOAT", "NONE", "SETITEMS", "NEWOBJ_EX"],
+        &["GLOBAL", "EMPTY_TUPLE", "MARK", "NONE", "NONE", "UNICODE", "NONE", "INT", "NONE", "DICT", "NEWOBJ_EX"],
+        &["GLOBAL", "EMPTY_TUPLE", "REDUCE", "MARK", "UNICODE", "NONE", "NONE", "NONE", "INT", "NONE", "DICT", "BUILD"],
+        &["EMPTY_SET", "MARK", "NONE", "BININT1", "SHORT_BINUNICODE", "BINFLOAT", "NEWTRUE", "ADDITEMS", "MARK", "NONE", "ADDITEMS", "MEMOIZE"],
+        &["MARK", "NONE", "INT", "UNICODE", "FLOAT", "FROZENSET", "DUP", "TUPLE2", "MEMOIZE"],
     ];
     let mut queue: Vec<u8> = Vec::new();
     // a third of the cases draw their arguments from saturated (all-0xFF) entropy: NaN floats, -1 ints
@@ -1134,6 +1142,50 @@ pub fn c12(thorough: bool, seed: u64) -> CheckOutput {
             |a, b| a.merge(b),
         );
         acc.merge(fe);
+        // ... and with the protocol left to the tool (--seed S alone: the CLI derives the protocol
+        // from the seed): every protocol must come up, and protocols 4 and 5 both framed and unframed
+        let cli = std::env::var("PFV_CLI").unwrap();
+        let n_seeds: u64 = if thorough { 1200 } else { 300 };
+        let derived = par_run(
+            n_seeds as usize,
+            Acc::new,
+            |i, a| {
+                let f = std::env::temp_dir().join(format!("pfv-c12s-{}-{}.pkl", std::process::id(), i));
+                let s = i as u64 + (seed % 7) * 6;
+                let ok = std::process::Command::new(&cli).arg("--seed").arg(s.to_string()).arg("--").arg(&f).output();
+                if matches!(ok, Ok(o) if o.status.success()) {
+                    let bytes = std::fs::read(&f).unwrap_or_default();
+                    a.evaluations += 1;
+                    let ins = crate::lexer::lex_lenient(&bytes);
+                    let proto = match ins.first() {
+                        Some(i0) if i0.op.name == "PROTO" => bytes.get(1).copied().unwrap_or(0),
+                        _ => 0, // protocols 0 and 1 carry no PROTO: counted together
+                    };
+                    let framed = ins.iter().any(|k| k.op.name == "FRAME");
+                    a.count(&format!("cli_derived_protocol_P{}_{}", proto, if framed { "framed" } else { "unframed" }), 1);
+                } else {
+                    a.inconclusive.push("CLI run with --seed alone failed in the C12 front-end layer".into());
+                }
+                let _ = std::fs::remove_file(&f);
+            },
+            |a, b| a.merge(b),
+        );
+        acc.merge(derived);
+        for key in ["P0_unframed", "P2_unframed", "P3_unframed", "P4_framed", "P4_unframed", "P5_framed", "P5_unframed"] {
+            if acc.get(&format!("cli_derived_protocol_{}", key)) == 0 && acc.inconclusive.is_empty() {
+                let msg = format!(
+                    "no {} pickle among {} CLI runs with --seed S alone (protocol derived from the seed by the tool)",
+                    key.replace('_', " "),
+                    n_seeds
+                );
+                acc.violate(Violation {
+                    property: "C12".into(),
+                    signature: format!("C12:cli_derived:{}", key),
+                    message: msg.clone(),
+                    replay: json!({"kind": "c12-cli", "property": "C12", "flags": ["--seed", "S"], "mode": "single-file, protocol derived from the seed", "opcode": key, "message": msg}),
+                });
+            }
+        }
     }
     let optin = ["EXT1", "EXT2", "EXT4", "NEXT_BUFFER", "READONLY_BUFFER"];
     let mut witnesses = serde_json::Map::new();
